@@ -33,6 +33,19 @@ type jcase struct {
 	Bounds []*int32   `json:"bounds,omitempty"` // minx maxx miny maxy minz maxz; absent = nil bounds
 	Spans  [][4]int32 `json:"spans,omitempty"`
 	Pts    [][3]int32 `json:"pts,omitempty"`
+	Steps  []vstep    `json:"steps,omitempty"` // version history of one ROI instance
+	Obs    int        `json:"obs,omitempty"`   // replay: the observation (1-based) to emit; 0 = all
+}
+
+// vstep: one step of a version history.  Nodes are numbered in creation order, 0 is the root.
+//   post/delete  Node, Spans        write the ROI at an open node
+//   child        Parent -> new node  commit Parent (if still open) and make a new version of it
+//   branch       Parent -> new node  commit Parent (if still open) and branch off it
+type vstep struct {
+	Op     string     `json:"op"`
+	Node   int        `json:"node,omitempty"`
+	Parent int        `json:"parent,omitempty"`
+	Spans  [][4]int32 `json:"spans,omitempty"`
 }
 
 // ---- Coq printers ----
@@ -509,6 +522,236 @@ func doMask(c jcase) {
 		fmt.Sprintf("mask/%v/%v/%v/%s", c.Size, c.Off, c.Q, runsKey(c.Spans)))
 }
 
+// doRoiVer plays a version history of one ROI instance and then, at EVERY version, compares the
+// point query and the mask with the spans GET roi returns at that same version, and those spans
+// with what the history says the version holds.
+func doRoiVer(c jcase) {
+	roiOpen()
+	roiN++
+	root, err := dv.NewRepo(fmt.Sprintf("c18v%d", roiN))
+	if err != nil {
+		fmt.Fprintln(os.Stderr, err)
+		os.Exit(2)
+	}
+	bs := c.Size
+	if err := dv.NewInstance(root, "roi", "r", map[string]string{"BlockSize": fmt.Sprintf("%d,%d,%d", bs[0], bs[1], bs[2])}); err != nil {
+		fmt.Fprintln(os.Stderr, err)
+		os.Exit(2)
+	}
+	type node struct {
+		uuid      string
+		parent    int
+		committed bool
+		own       bool // wrote the ROI itself (post or delete)
+		spans     [][4]int32
+	}
+	nodes := []*node{{uuid: root, parent: -1}}
+	commit := func(i int) {
+		if !nodes[i].committed {
+			dv.Commit(nodes[i].uuid)
+			nodes[i].committed = true
+		}
+	}
+	var zs []int32 // every Z layer any version used
+	for _, st := range c.Steps {
+		switch st.Op {
+		case "post":
+			body, _ := json.Marshal(st.Spans)
+			if len(st.Spans) == 0 {
+				body = []byte("[]")
+			}
+			if r := dv.Post("/api/node/"+nodes[st.Node].uuid+"/r/roi", body); r.Status != 200 {
+				fmt.Fprintln(os.Stderr, "post roi refused", r.Status, string(r.Body))
+				os.Exit(2)
+			}
+			nodes[st.Node].own, nodes[st.Node].spans = true, st.Spans
+			for _, sp := range st.Spans {
+				zs = append(zs, sp[0])
+			}
+		case "delete":
+			if r := dv.Delete("/api/node/" + nodes[st.Node].uuid + "/r/roi"); r.Status != 200 {
+				fmt.Fprintln(os.Stderr, "delete roi refused", r.Status, string(r.Body))
+				os.Exit(2)
+			}
+			nodes[st.Node].own, nodes[st.Node].spans = true, nil
+		case "child", "branch":
+			commit(st.Parent)
+			var u string
+			var r dv.Resp
+			if st.Op == "child" {
+				u, r = dv.NewVersion(nodes[st.Parent].uuid)
+			} else {
+				u, r = dv.Branch(nodes[st.Parent].uuid, fmt.Sprintf("b%d", len(nodes)))
+			}
+			if u == "" {
+				fmt.Fprintln(os.Stderr, "cannot create version", r.Status, string(r.Body))
+				os.Exit(2)
+			}
+			nodes = append(nodes, &node{uuid: u, parent: st.Parent})
+		}
+	}
+	// what each version holds: its own last write, else what its parent holds
+	var held func(i int) [][4]int32
+	held = func(i int) [][4]int32 {
+		if nodes[i].own || nodes[i].parent < 0 {
+			return nodes[i].spans
+		}
+		return held(nodes[i].parent)
+	}
+	obs := 0
+	emit := func(kind, term, key string) {
+		obs++
+		if c.Obs != 0 && c.Obs != obs {
+			return
+		}
+		cc := c
+		cc.Obs = obs
+		run.Add(kind, term, cc, key)
+	}
+	rng := lib.NewRand(uint64(len(c.Steps))*7919 + uint64(bs[0]))
+	for i, n := range nodes {
+		base := "/api/node/" + n.uuid + "/r"
+		r := dv.Get(base + "/roi")
+		var got [][4]int32
+		if r.Status != 200 || json.Unmarshal(r.Body, &got) != nil {
+			got = [][4]int32{{0, 0, 1, 0}}
+		}
+		run.Count(fmt.Sprintf("roiver:spans-at-version:%d", bucket(len(got))))
+		emit("roiver-get", fmt.Sprintf("(KRoiGet %s %s)", cspl(held(i)), cspl(got)), fmt.Sprintf("rvget/%d/%s/%d", i, runsKey(got), len(c.Steps)))
+		// points inside, on span ends and just outside this version's spans, in the Z layers of the
+		// other versions, and fixed negative / origin points
+		var pts [][3]int32
+		for _, sp := range got {
+			for _, bx := range []int32{sp[2] - 1, sp[2], sp[3], sp[3] + 1} {
+				pts = append(pts, [3]int32{bx*bs[0] + int32(rng.Intn(int(bs[0]))), sp[1]*bs[1] + int32(rng.Intn(int(bs[1]))), sp[0]*bs[2] + int32(rng.Intn(int(bs[2])))})
+			}
+			pts = append(pts, [3]int32{sp[2] * bs[0], sp[1]*bs[1] - 1, sp[0] * bs[2]}, [3]int32{sp[2] * bs[0], sp[1] * bs[1], sp[0]*bs[2] - 1})
+		}
+		for _, zz := range zs {
+			pts = append(pts, [3]int32{int32(rng.Intn(3*int(bs[0]))) - bs[0], int32(rng.Intn(2 * int(bs[1]))), zz*bs[2] + int32(rng.Intn(int(bs[2])))})
+		}
+		pts = append(pts, [3]int32{-1, -1, -1}, [3]int32{0, 0, 0})
+		if len(pts) > 60 {
+			pts = pts[:60]
+		}
+		cls := "ok"
+		var ans []bool
+		body, _ := json.Marshal(pts)
+		pr := dv.Post(base+"/ptquery", body)
+		switch {
+		case pr.Class() == "panic":
+			cls = "panic"
+		case pr.Status != 200 || json.Unmarshal(pr.Body, &ans) != nil:
+			cls = "err"
+		}
+		emit("roiver-ptquery", fmt.Sprintf("(KPtq %s %s %s %s)", cpt(bs), cspl(got), cpts(pts), lib.CoqRes(cls, cbits(ans))),
+			fmt.Sprintf("rvptq/%d/%s/%d/%d", i, runsKey(got), len(pts), len(c.Steps)))
+		// a mask box around one of this version's spans, or (no spans) around another version's layer
+		var at [4]int32
+		switch {
+		case len(got) > 0:
+			at = got[rng.Intn(len(got))]
+		case len(zs) > 0:
+			at = [4]int32{zs[rng.Intn(len(zs))], 0, 0, 0}
+		}
+		size := []int32{int32(1 + rng.Intn(10)), int32(1 + rng.Intn(6)), int32(1 + rng.Intn(5))}
+		off := []int32{at[2]*bs[0] - int32(rng.Intn(4)), at[1]*bs[1] - int32(rng.Intn(3)), at[0]*bs[2] - int32(rng.Intn(3))}
+		mcls := "ok"
+		var mask []bool
+		mr := dv.Get(fmt.Sprintf("%s/mask/0_1_2/%d_%d_%d/%d_%d_%d", base, size[0], size[1], size[2], off[0], off[1], off[2]))
+		switch {
+		case mr.Class() == "panic":
+			mcls = "panic"
+		case mr.Status != 200 || len(mr.Body) != int(size[0])*int(size[1])*int(size[2]):
+			mcls = "err"
+		default:
+			mask = make([]bool, len(mr.Body))
+			for k, b := range mr.Body {
+				mask[k] = b != 0
+			}
+		}
+		emit("roiver-mask", fmt.Sprintf("(KMask %s %s %s %s %s)", cpt(bs), cpt(off), cpt(size), cspl(got), lib.CoqRes(mcls, cbits(mask))),
+			fmt.Sprintf("rvmask/%d/%s/%v/%v", i, runsKey(got), off, size))
+	}
+	run.Count(fmt.Sprintf("roiver:versions:%d", len(nodes)))
+}
+
+// genRoiVer: a small version DAG (root, children, sibling branches) whose versions write ROIs in
+// disjoint, overlapping or no Z layers, delete them or inherit them, in varying order.
+func genRoiVer(rng *lib.Rand) jcase {
+	bs := []int32{int32(rng.Pick(4, 8)), int32(rng.Pick(4, 2)), int32(rng.Pick(4, 3))}
+	spansAt := func(z0 int32) [][4]int32 {
+		var out [][4]int32
+		n := 1 + rng.Intn(4)
+		for i := 0; i < n; i++ {
+			x0 := int32(rng.Intn(7)) - 4
+			out = append(out, [4]int32{z0 + int32(rng.Intn(2)), int32(rng.Intn(3)) - 1, x0, x0 + int32(rng.Pick(0, 1, 3))})
+		}
+		return out
+	}
+	layers := []int32{0, 6, -5, 12, -11, 3}
+	for i := len(layers) - 1; i > 0; i-- {
+		j := rng.Intn(i + 1)
+		layers[i], layers[j] = layers[j], layers[i]
+	}
+	write := func(node, k int) vstep {
+		switch rng.Intn(6) {
+		case 0:
+			return vstep{Op: "delete", Node: node}
+		case 1:
+			return vstep{Op: "post", Node: node, Spans: [][4]int32{}}
+		case 2: // overlaps the first layer used
+			return vstep{Op: "post", Node: node, Spans: spansAt(layers[0])}
+		default:
+			return vstep{Op: "post", Node: node, Spans: spansAt(layers[k%len(layers)])}
+		}
+	}
+	c := jcase{Kind: "roiver", Size: bs}
+	c.Steps = append(c.Steps, vstep{Op: "post", Node: 0, Spans: spansAt(layers[0])})
+	if rng.Chance(0.3) { // the root re-posts before it is committed
+		c.Steps = append(c.Steps, vstep{Op: "post", Node: 0, Spans: spansAt(layers[1])})
+	}
+	// children and branches of the root and of each other, all left open, then written in random order
+	nn := 1
+	var open []int
+	hasChild := map[int]bool{}
+	for k := 0; k < 2+rng.Intn(3); k++ {
+		parent := 0
+		if len(open) > 0 && rng.Chance(0.4) {
+			parent = open[rng.Intn(len(open))]
+			// a parent must be written (or not) before it is committed
+			if rng.Chance(0.7) {
+				c.Steps = append(c.Steps, write(parent, parent+1))
+			}
+			for i, o := range open {
+				if o == parent {
+					open = append(open[:i], open[i+1:]...)
+					break
+				}
+			}
+		}
+		// only one child can continue the parent's own branch
+		op := "branch"
+		if !hasChild[parent] && rng.Chance(0.5) {
+			op = "child"
+			hasChild[parent] = true
+		}
+		c.Steps = append(c.Steps, vstep{Op: op, Parent: parent})
+		open = append(open, nn)
+		nn++
+	}
+	for i := len(open) - 1; i > 0; i-- {
+		j := rng.Intn(i + 1)
+		open[i], open[j] = open[j], open[i]
+	}
+	for k, o := range open {
+		if rng.Chance(0.8) {
+			c.Steps = append(c.Steps, write(o, k+2))
+		}
+	}
+	return c
+}
+
 func doVbi(c jcase) {
 	spans := make([]dvid.Span, len(c.Spans))
 	for i, s := range c.Spans {
@@ -573,6 +816,8 @@ func dispatch(c jcase) {
 		doMask(c)
 	case "boundsinside":
 		doVbi(c)
+	case "roiver":
+		doRoiVer(c)
 	default:
 		fmt.Fprintln(os.Stderr, "unknown case kind", c.Kind)
 		os.Exit(2)
@@ -935,6 +1180,10 @@ func main() {
 		dispatch(jcase{Kind: "readrles", Bytes: s})
 	}
 
+	// ---- ROI version histories (HTTP): every version against its own spans ----
+	for i := 0; i < 6*mul; i++ {
+		dispatch(genRoiVer(rng))
+	}
 	// ---- ROI (HTTP) ----
 	nroi := 21 * mul
 	for i := 0; i < nroi; i++ {
